@@ -39,7 +39,7 @@ ASSUMPTIONS = [
 ]
 PROBES = ["run under settings.STRICT", "right password after a wrong one, same parser", "cross-reference table unusable (body scan)", "V1R2 RC4-40", "V2R3 RC4", "V4R4 V2", "V4R4 AESV2", "V4R4 Identity", "V5R5 AESV3", "V5R6 AESV3", "owner password differs", "empty user password", "non-ASCII password", "long password", "no ID", "EncryptMetadata false", "object stream", "generation > 0", "object number above 65535", "string inside stream dictionary", "eviction happened", "wrong password non-Latin-1", "two encrypted documents read alternately"]
 TIERS = {
-    "quick": {"batches": 16, "runs": 400, "budget_s": 50},
+    "quick": {"batches": 16, "runs": 400, "budget_s": 90},
     "thorough": {"batches": 128, "runs": 500, "budget_s": 1200},
 }
 DETERMINISM_SLICE = 4
